@@ -9,8 +9,8 @@ SYSINFO_H = os.path.join(cjob.REPO, 'src/host/layer23/include/osmocom/bb/common/
 WINDOW_Q = [0, 1, 2, 3, 511, 512, 1022, 1023]
 META = dict(
     functions=['sysinfo.c: gsm48_decode_mobile_alloc (verbatim text extracted from the working tree by brace matching, compiled with the FREQ_TYPE_* macros read from sysinfo.h)'],
-    bounds=dict(quick='bitmap length len = 0..9, si4 in {0,1}; all 8*len bitmap bits symbolic; cell allocation = symbolic membership of each ARFCN of the window %s (other ARFCNs absent), other mask bits of those entries symbolic; loops fully unrolled (1024 + 1024 + 64 iterations)' % WINDOW_Q,
-                thorough='as quick plus a 72-ARFCN window (the 8 above + 64 consecutive ARFCNs) so that |CA| reaches 64 and beyond and the 64-entry output bound is exercised'),
+    bounds=dict(quick='bitmap length len = 0..9, si4 in {0,1}; all 8*len bitmap bits symbolic (one variable per bit); cell allocation = symbolic membership of each ARFCN of the window %s (other ARFCNs absent), other mask bits of those entries symbolic; loops fully unrolled (1024 + 1024 + 64 iterations)' % WINDOW_Q,
+                thorough='as quick plus a 72-ARFCN window (the 8 above with symbolic membership + 64 consecutive ARFCNs that are always members) so that |CA| is 64..72 and the 64-entry output bound is exercised with all 64 bitmap bits symbolic'),
     stubs=['LOGP -> empty', 'struct gsm_sysinfo_freq reduced to its mask octet (sizeof read from the compiler)', 'VLA via llvm.stacksave/alloca with the concrete size of each run'],
     outside=['cell allocations containing ARFCNs outside the window', 'callers (sysinfo.c:997, gsm48_rr.c:4021) are read for the buffer-size contract only: hopping[64], ma[len], freq[1024]'],
     assumptions=['order of 3GPP TS 44.018 10.5.2.21: ascending ARFCN with ARFCN 0 last; bit i (LSB of the last octet first) refers to the i-th cell channel'],
@@ -26,7 +26,8 @@ def jobs(tier, seed):
     if tier == 'thorough':
         big = WINDOW_Q + list(range(100, 164))
         for L in (1, 8):
-            out.append(('big.len=%d' % L, 'c_decode', dict(length=L, si4=0, window=sorted(big))))
+            for si4 in (0, 1):
+                out.append(('big.len=%d.si4=%d' % (L, si4), 'c_decode', dict(length=L, si4=si4, window=sorted(big), fixed=sorted(big))))
     out.append(('validation', 'c_validate', dict(seed=seed)))
     return out
 
@@ -63,7 +64,11 @@ def module():
     return _MOD['m']
 
 
-def c_decode(hid, length, si4, window, timeout_ms=60000):
+class _One:
+    e = z3.IntVal(1)
+
+
+def c_decode(hid, length, si4, window, fixed=(), timeout_ms=60000):
     j = cjob.CJob(hid, timeout_ms)
     M = module()
     ex = Exec(M, max_iter=1100)
@@ -72,14 +77,14 @@ def c_decode(hid, length, si4, window, timeout_ms=60000):
     cells = {}
     for a in range(1024):
         if a in window:
-            memb[a] = j.var(ex, 'ca[%d]' % a, 0, 1); hbit[a] = j.var(ex, 'hopp_pre[%d]' % a, 0, 1)
+            memb[a] = _One if a in fixed else j.var(ex, 'ca[%d]' % a, 0, 1); hbit[a] = j.var(ex, 'hopp_pre[%d]' % a, 0, 1)
             other[a] = [j.var(ex, 'mask_bit%d[%d]' % (k, a), 0, 1) for k in range(2, 8)]
             # mask octet given bit by bit: SERV (0x01) = membership, HOPP (0x02) and the six other flag bits symbolic
             cells[a] = (1, llsym.from_bits([memb[a].e, hbit[a].e] + [o.e for o in other[a]]))
         else:
             cells[a] = (1, C(0))
-    bits = [j.var(ex, 'ma[%d]' % i, 0, 255) for i in range(length)]
-    mem = {freq: cells, ma: {i: (1, bits[i]) for i in range(length)}}
+    mab = [[j.var(ex, 'ma[%d].bit%d' % (i, k), 0, 1) for k in range(8)] for i in range(length)]      # bitmap octets given bit by bit
+    mem = {freq: cells, ma: {i: (1, llsym.from_bits([b.e for b in mab[i]])) for i in range(length)}}
     hop_pre = {2 * k: (2, j.var(ex, 'hop_pre[%d]' % k, 0, 65535)) for k in range(64)}
     mem[hop] = dict(hop_pre)
     hl_pre = j.var(ex, 'hopp_len_pre', 0, 255); mem[hl] = {0: (1, hl_pre)}
@@ -99,8 +104,7 @@ def c_decode(hid, length, si4, window, timeout_ms=60000):
     order = [a for a in list(range(1, 1024)) + [0] if a in window]
     nbits = 8 * length
     def bit(p):
-        byte = bits[length - 1 - (p >> 3)]
-        return (byte.e / (1 << (p & 7))) % 2 == 1
+        return mab[length - 1 - (p >> 3)][p & 7].e == 1
     # index of each member in the cell-channel list
     idx = {}; acc = z3.IntVal(0)
     for a in order: idx[a] = acc; acc = acc + memb[a].e
@@ -214,9 +218,9 @@ def replay(body):
     if 'length' not in sh: return 0, 'validation job has no symbolic replay'
     ca = {}
     for a in sh['window']:
-        m = i.get('ca[%d]' % a, 0) + 2 * i.get('hopp_pre[%d]' % a, 0) + sum(i.get('mask_bit%d[%d]' % (k, a), 0) << k for k in range(2, 8))
+        m = (1 if a in sh.get('fixed', ()) else i.get('ca[%d]' % a, 0)) + 2 * i.get('hopp_pre[%d]' % a, 0) + sum(i.get('mask_bit%d[%d]' % (k, a), 0) << k for k in range(2, 8))
         if m: ca[a] = m
-    mab = [i.get('ma[%d]' % k, 0) for k in range(sh['length'])]
+    mab = [sum(i.get('ma[%d].bit%d' % (k, b), 0) << b for b in range(8)) for k in range(sh['length'])]
     bad, txt = check_native(sh['length'], sh['si4'], ca, mab)
     if bad is None: return 2, txt
     return (1, 'REPRODUCED on native build (ASan/UBSan): ' + txt) if bad else (0, 'native agrees: ' + txt)
